@@ -71,7 +71,7 @@ fn gen_script(rng: &mut Rng, kind: ChildKind, c: usize, n: usize, small: bool, p
             for _ in 0..pend {
                 steps.push(Step { res: Res::Pend, fires: gen_fires(rng, c, n) });
             }
-            let never = rng.chance(if prof.is("stuck") { 35 } else { 7 });
+            let never = !prof.is("drain") && rng.chance(if prof.is("stuck") { 35 } else { 7 });
             if !never {
                 let ok = if kind == ChildKind::Res {
                     !rng.chance(if prof.is("errs") { 70 } else { 35 })
@@ -98,7 +98,7 @@ fn gen_script(rng: &mut Rng, kind: ChildKind, c: usize, n: usize, small: bool, p
             if rng.chance(30) {
                 steps.push(Step { res: Res::Pend, fires: gen_fires(rng, c, n) });
             }
-            if !rng.chance(if prof.is("stuck") { 35 } else { 10 }) {
+            if prof.is("drain") || !rng.chance(if prof.is("stuck") { 35 } else { 10 }) {
                 steps.push(Step { res: Res::Fin, fires: vec![] });
             }
         }
@@ -569,7 +569,7 @@ fn run_fixed(rng: &mut Rng, fam: &str, id: &str, prof: &Profile) {
             gen_script(rng, ck, c, n, small, prof)
         })
         .collect();
-    inject_panic(rng, &mut scripts, if prof.is("panic") { 60 } else { 6 });
+    inject_panic(rng, &mut scripts, if prof.is("panic") { 60 } else if prof.is("drain") { 0 } else { 6 });
     for (c, s) in scripts.iter().enumerate() {
         let id = add_child(s.clone(), c);
         assert_eq!(id, c);
@@ -602,6 +602,55 @@ fn run_fixed(rng: &mut Rng, fam: &str, id: &str, prof: &Profile) {
     let mut finished = false;
     let mut last_pending = false;
     let mut steps = 0usize;
+    if prof.is("drain") {
+        // profile `drain`: a wake-only executor with a fresh waker per poll and a benign environment
+        // (all scripts are finite and end in Ready / None): poll only when the task was woken since
+        // the previous poll began (or after an item); otherwise let one waiting child make progress
+        // by invoking the waker of its latest poll.  If nothing is left to do while the combinator
+        // is still Pending, it is stuck: logged as `an 98 0` (a violation of C01's consequence).
+        let mut woken = true;
+        let mut last_item = false;
+        while !finished && steps < 600 {
+            steps += 1;
+            if woken || last_item {
+                cur_w = next_w;
+                next_w += 1;
+                block.ops.push(format!("p {cur_w}"));
+                let from = CTX.with(|c| c.borrow().log.len());
+                let c = comb.as_mut().unwrap();
+                let o = do_poll(&mut |cx| c.poll(cx), cur_w);
+                finished = final_outcome(&o, is_stream);
+                last_item = o.starts_with('S');
+                woken = CTX.with(|c| c.borrow().log[from..].iter().any(|l| *l == format!("wo {cur_w}")));
+            } else {
+                let waiting: Vec<usize> = CTX.with(|c| {
+                    let c = c.borrow();
+                    let mut last: Vec<Option<bool>> = vec![None; n];
+                    for l in &c.log {
+                        let ws: Vec<&str> = l.split(' ').collect();
+                        if ws.len() == 3 && ws[0] == "ce" {
+                            if let Ok(k) = ws[1].parse::<usize>() {
+                                if k < n {
+                                    last[k] = Some(ws[2] == "P");
+                                }
+                            }
+                        }
+                    }
+                    (0..n).filter(|k| last[*k] == Some(true) && !c.scripts[*k].is_empty()).collect()
+                });
+                if waiting.is_empty() {
+                    log("an 98 0".into());
+                    break;
+                }
+                let c = *rng.pick(&waiting);
+                block.ops.push(format!("f {c} 0"));
+                let from = CTX.with(|c| c.borrow().log.len());
+                fire(c, 0);
+                woken = CTX.with(|c| c.borrow().log[from..].iter().any(|l| *l == format!("wo {cur_w}")));
+            }
+        }
+        polls = max_polls;
+    }
     while !finished && polls < max_polls && steps < 80 {
         steps += 1;
         if let Some(d) = drop_after {
@@ -913,18 +962,25 @@ fn run_co(rng: &mut Rng, id: &str, prof: &Profile) {
         .map(|_| if rng.chance(12) { 0 } else { rng.below(items + 2) })
         .collect();
     let limits: Vec<usize> = shape.chars().filter(|c| *c == 'L').map(|_| rng.below(4)).collect();
-    let scripts = gen_co_scripts(rng, term, shape, items, prof);
+    let vec_src = rng.chance(25);
+    let mut scripts = gen_co_scripts(rng, term, shape, items, prof);
+    if vec_src {
+        // the Vec source is always ready; its script is only kept as documentation of the items
+        scripts[0] = (0..items).map(|j| Step { res: Res::Item(crate::costream::item_id(j)), fires: vec![] }).collect();
+        scripts[0].push(Step { res: Res::Fin, fires: vec![] });
+    }
     for (c, s) in scripts.iter().enumerate() {
         let k = add_child(s.clone(), c);
         assert_eq!(k, c);
     }
     let lt = |v: &Vec<usize>| if v.is_empty() { "-".to_string() } else { v.iter().map(|x| x.to_string()).collect::<Vec<_>>().join(",") };
     let mut block = Block {
-        header: format!("CASE {id} co {MODE} {term} {shape} {} {} {items}", lt(&takes), lt(&limits)),
+        header: format!("CASE {id} co {MODE} {term} {shape} {} {} {items} {}", lt(&takes), lt(&limits), if vec_src { "v" } else { "s" }),
         scripts: scripts.iter().cloned().enumerate().collect(),
         ops: vec![],
     };
-    let mut top: Option<CoComb> = Some(CoComb { top: build_co(term, shape, &takes, &limits) });
+    let mut top: Option<CoComb> =
+        Some(CoComb { top: build_co(term, shape, &takes, &limits, if vec_src { Some(items) } else { None }) });
     let nchild = scripts.len();
     let mut next_w = 1usize;
     let mut cur_w = 1usize;
@@ -1008,7 +1064,8 @@ fn replay_co(header: &str, scripts: &[(usize, Vec<Step>)], ops: &[String]) {
         add_child(s, c);
     }
     let block = Block { header: header.to_string(), scripts: scripts.to_vec(), ops: ops.to_vec() };
-    let mut top: Option<CoComb> = Some(CoComb { top: build_co(term, shape, &takes, &limits) });
+    let vec_items: Option<usize> = if hw.get(9).cloned() == Some("v") { Some(hw[8].parse().unwrap()) } else { None };
+    let mut top: Option<CoComb> = Some(CoComb { top: build_co(term, shape, &takes, &limits, vec_items) });
     let mut finished = false;
     for o in ops {
         let ws: Vec<&str> = o.split(' ').collect();
